@@ -2571,7 +2571,6 @@ class BSP:
                 texdata = TexData(mat, Vec(ref_x, ref_y, ref_z), w, h)
                 texdata_list.append(texdata)
                 self._texdata[mat.casefold()] = texdata
-        self.lumps[BSP_LUMPS.TEXDATA].data = b''
 
         for (
             sx, sy, sz, so, tx, ty, tz, to,
